@@ -613,6 +613,9 @@ def overused_constant(source: str, *, root_is_static: bool) -> str:
         variable_name = style.rename_variable(
             variable_name, static=best_common_scope is root and root_is_static, private=False
         )
+        if variable_name in blacklisted_names:
+            # The name that the value suggests means something else already
+            continue
 
         name = ast.Name(id=variable_name)
         assign = ast.parse(f"{variable_name} = {code}").body[0]  # Not cached, since it is modified
